@@ -3,7 +3,35 @@ written from the property text, not from the C++ or the Coq model."""
 import itertools
 
 
+_SPREAD = {}
+
+
+def _spread(x, d):
+    """bits of x moved to positions k*d (memoised)"""
+    key = (x, d)
+    r = _SPREAD.get(key)
+    if r is None:
+        r = 0
+        k = 0
+        y = x
+        while y:
+            if y & 1:
+                r |= 1 << (k * d)
+            y >>= 1
+            k += 1
+        if len(_SPREAD) < 2000000:
+            _SPREAD[key] = r
+    return r
+
+
 def box(coords, d):
+    idx = 0
+    for j in range(d):
+        idx |= _spread(coords[j], d) << (d - 1 - j)
+    return idx
+
+
+def box_slow(coords, d):
     idx = 0
     nb = max([c.bit_length() for c in coords] + [0])
     for k in range(nb):
@@ -39,7 +67,46 @@ def dec(code, d, base, off):
     return out
 
 
+_OFFS7 = {}
+
+
+def _offsets7(d):
+    if d not in _OFFS7:
+        _OFFS7[d] = [(o, enc(o, 7, 3)) for o in itertools.product(range(-3, 4), repeat=d) if not all(abs(x) <= 1 for x in o)]
+    return _OFFS7[d]
+
+
 def ilist(idx, l, d, per):
+    """fast version of ilist_def (same definition; offsets and bit spreading precomputed)"""
+    if (per and l < 1) or (not per and l < 2):
+        return []
+    c = unbox(idx, d)
+    ch = [x >> 1 for x in c]
+    n = 1 << l
+    res = []
+    rng = range(d)
+    for o, code in _offsets7(d):
+        ok = True
+        u = [0] * d
+        for j in rng:
+            x = c[j] + o[j]
+            dj = (x >> 1) - ch[j]
+            if dj > 1 or dj < -1:
+                ok = False
+                break
+            if per:
+                x %= n
+            elif x < 0 or x >= n:
+                ok = False
+                break
+            u[j] = x
+        if ok:
+            res.append((box(u, d), code))
+    res.sort()
+    return res
+
+
+def ilist_def(idx, l, d, per):
     """multiset of (source index, code): children of the parent's neighbours (wrapped when periodic,
     clipped otherwise) that are not adjacent to the cell; code from the true (unwrapped) offset."""
     if (per and l < 1) or (not per and l < 2):
